@@ -342,6 +342,9 @@ def extra_worlds() -> List[Tuple[str, R, Optional[R]]]:
     deco_decoy = pfunc("wrapper of the decoy", code("WRAPD", "wrapper", 0, ()), wrapped=decoy)
     C = pclass("C", {"f": target})
     out.append(("globals bind the name to a wrapper around another function; the code is a method of the first argument", frame(CO, {"f": deco_decoy}, {"self": pinst("c1", C)}), target))
+    twin = pfunc("twin (another function whose code object is EQUAL to the running one, not the same object)", code("TWIN", "f", 1, ("self", "x")))
+    out.append(("globals bind the name to a function with an equal code object (the generated method of a second dataclass); the code that runs is a method of the first argument",
+                frame(CO, {"f": twin}, {"self": pinst("c1", C)}), target))
     out.append(("a function without parameters (no first argument to look at)", frame(code("CODE0", "f", 0, ()), {"f": pfunc("t0", code("NOT", "f", 0, ()))}, {}), None))
     return out
 
